@@ -670,6 +670,17 @@ class Exec:
                 v = self._generic_const(st, c)
                 if v is not None:
                     return v
+                # an associated const of a trait, used through a type parameter that the inlined call binds
+                # (`<C as Counter>::UNIT` with C = StrongCounter): the impl's evaluated value
+                ua = c.get("uneval_args") or []
+                if ua and ua[0].get("k") == "ty":
+                    selfty = subst_ty(ua[0]["ty"], st.env)
+                    nm = c["uneval"].split("::")
+                    if len(nm) >= 2:
+                        key = "<%s as %s>::%s" % (selfty, "::".join(nm[:-1]), nm[-1])
+                        pc2 = self.prog.consts.get(key)
+                        if pc2 is not None and "int" in pc2:
+                            return ("c", int(pc2["int"]), c["ty"])
                 return ("c", c["display"], c["ty"])
             return ("c", c["display"], c["ty"])
         return ("unk", "operand", fresh())
